@@ -70,10 +70,11 @@ deriving Repr
 
 instance : Inhabited Field := ⟨{ name := "", type := 0, tsz := 0, swap := false, order := 0, isize := 0, esize := 0, off := 0 }⟩
 
-/-- `VSfdefine(vkey, field, localtype, order)`; `none` = FAIL. A field that is already defined is replaced at its
-    index (code after commit b2ad584; the older scan compared with `rstab[j]` and is described in DESIGN.md). -/
-def vsfdefine (usym : List SymDef) (name : String) (localtype order : Nat) : Option (List SymDef) :=
-  if name.isEmpty ∨ name.contains ',' then none else
+/-- `VSfdefine` behind its `scanattrs` call (which delivered the single token `name`): the limit tests, the duplicate scan and
+    the update of `vs->usym[]`; `none` = FAIL. A field that is already defined is replaced at its index (code after commit
+    b2ad584; the older scan compared with `rstab[j]` and is described in DESIGN.md).  This is the function the C text of
+    `VSfdefine`, translated statement by statement, is proved to compute (`H4.Props.C07Fld.VSfdefine_refines`). -/
+def vsfdefineTok (usym : List SymDef) (name : String) (localtype order : Nat) : Option (List SymDef) :=
   if order < 1 ∨ order > MAX_ORDER then none else
   match ntInfo localtype with
   | none => none
@@ -84,6 +85,11 @@ def vsfdefine (usym : List SymDef) (name : String) (localtype order : Nat) : Opt
     match usym.findIdx? (fun s => s.name == name) with
     | some j => some (usym.set j sd)
     | none => some (usym ++ [sd])
+
+/-- `VSfdefine(vkey, field, localtype, order)`; `none` = FAIL.  `scanattrs(field)` must deliver exactly one token (`ac != 1`
+    is refused): no comma, not empty. -/
+def vsfdefine (usym : List SymDef) (name : String) (localtype order : Nat) : Option (List SymDef) :=
+  if name.isEmpty ∨ name.contains ',' then none else vsfdefineTok usym name localtype order
 
 structure WList where
   fields : List Field := []
@@ -102,14 +108,24 @@ def scanattrs (s : String) : Option (List String) :=
 def assignOffs (fs : List Field) : List Field :=
   (fs.foldl (fun (p : List Field × Nat) f => ({ f with off := p.2 } :: p.1, p.2 + f.isize)) ([], 0)).1.reverse
 
-/-- first part of `VSsetfields` (write access, empty vdata, write list not yet set): build the write list
-    from the user symbol table. Reserved symbols (`rstab` names) are not modelled: unknown name = FAIL. -/
+/-- a name of the generated table `RSTAB_NAME` (character codes followed by the NUL) -/
+def rowString (r : List Int) : String := String.ofList ((r.takeWhile (· ≠ 0)).map fun c => Char.ofNat c.toNat)
+
+/-- `rstab[]` of vsfld.c: the reserved (predefined) symbols `PX PY PZ IX IY IZ NX NY NZ`, from the generated tables -/
+def rstab : List SymDef :=
+  (List.range NRESERVED).map fun j =>
+    { name := rowString (RSTAB_NAME.getD j []), type := RSTAB_TYPE.getD j 0, isize := RSTAB_ISIZE.getD j 0, order := RSTAB_ORDER.getD j 0 }
+
+/-- first part of `VSsetfields` (write access, empty vdata, write list not yet set): build the write list.  Every name is
+    looked up among the user symbols first, then among the reserved symbols `rstab[]`; an unknown name = FAIL.
+    A field is refused when the record size so far would exceed `MAX_FIELD_SIZE` (a user field also when its own size does);
+    the reserved-symbol branch has that test since commit fef3f30 (before, `wlist->ivsize += (uint16)isize` wrapped modulo
+    65536: known finding `limits-ivsize-wrap:reserved-field`). -/
 def buildWList (usym : List SymDef) (names : List String) : Option WList :=
   let rec go : List String → List Field → Nat → Option (List Field × Nat)
     | [], acc, iv => some (acc.reverse, iv)
     | nm :: rest, acc, iv =>
       match usym.find? (·.name == nm) with
-      | none => none
       | some sd =>
         match ntInfo sd.type with
         | none => none
@@ -120,6 +136,19 @@ def buildWList (usym : List SymDef) (names : List String) : Option WList :=
           if iv + isize > MAX_FIELD_SIZE then none else
           go rest ({ name := sd.name, type := sd.type, tsz := nt.tsz, swap := nt.swap, order := sd.order,
                      isize := isize, esize := esize % 65536, off := 0 } :: acc) (iv + isize)
+      | none =>
+        -- if (!found) for (j = 0; j < NRESERVED; j++) if (!strcmp(av[i], rstab[j].name)) { ... }
+        match rstab.find? (·.name == nm) with
+        | none => none
+        | some sd =>
+          match ntInfo sd.type with
+          | none => none
+          | some nt =>
+            let isize := sd.order * sd.isize % 65536
+            -- value = (int32)wlist->ivsize + (int32)(wlist->isize[wlist->n]); if (value > MAX_FIELD_SIZE) FAIL
+            if iv + isize > MAX_FIELD_SIZE then none else
+            go rest ({ name := sd.name, type := sd.type, tsz := nt.tsz, swap := nt.swap, order := sd.order,
+                       isize := isize, esize := sd.order * nt.nsz % 65536, off := 0 } :: acc) (iv + isize)
   match go names [] 0 with
   | none => none
   | some (fs, iv) =>
@@ -350,20 +379,26 @@ def VS.setInterlace (v : VS) (il : Nat) : Option VS :=
 def VS.fdefine (v : VS) (name : String) (t order : Nat) : Option VS :=
   (vsfdefine v.usym name t order).map fun u => { v with usym := u }
 
+/-- `VSsetfields` behind its `scanattrs` call (which delivered the tokens `names`): the returned flag is SUCCEED/FAIL.  A
+    refused write list leaves the vdata unchanged (commit bafc8f1); a refused READ list leaves the items found so far in
+    `rlist`.  This is the function the C text of `VSsetfields`, translated statement by statement, is proved to compute
+    (`H4.Props.C07Fld.VSsetfields_refines`). -/
+def VS.setFieldsTok (v : VS) (names : List String) : VS × Bool :=
+  if names.length = 0 ∨ names.length > VSFIELDMAX then (v, false) else
+  if v.writable ∧ v.nvertices = 0 ∧ v.w.n = 0 then
+    match buildWList v.usym names with
+    | none => (v, false)
+    | some w => ({ v with w := w }, true)
+  else if v.nvertices > 0 then
+    let (items, ok) := buildRList v.w names
+    ({ v with rlist := items }, ok)
+  else (v, false)
+
 /-- `VSsetfields`: the returned flag is SUCCEED/FAIL (the state may change even on FAIL: partial read list) -/
 def VS.setFields (v : VS) (fields : String) : VS × Bool :=
   match scanattrs fields with
   | none => (v, false)
-  | some names =>
-    if names.length > VSFIELDMAX then (v, false) else
-    if v.writable ∧ v.nvertices = 0 ∧ v.w.n = 0 then
-      match buildWList v.usym names with
-      | none => (v, false)
-      | some w => ({ v with w := w }, true)
-    else if v.nvertices > 0 then
-      let (items, ok) := buildRList v.w names
-      ({ v with rlist := items }, ok)
-    else (v, false)
+  | some names => v.setFieldsTok names
 
 /-- `VSseek(vkey, eltpos)`: `Hseek(vs->aid, eltpos * vs->wlist.ivsize, DF_START)`; seeks past the end of the
     data element are left to the linked-block layer and not modelled (`none`) -/
